@@ -138,6 +138,9 @@ func c11Ignored(r *Run) {
 						continue
 					}
 					judgeBig(r, table, hist, obs, in)
+					if n >= 1000 && (r.Quick || n >= 20000) && (tm*3+km+rm)%5 != int(r.Seed)%5 {
+						continue // the long runs are model cases for a seeded fifth of the combinations (the theorem C11_ignored_run covers every length)
+					}
 					dflt := make([][][]int, len(table))
 					r.Case(in, fmt.Sprintf("chk_ignored %d %s %s %s %d %d %d %d %d%%nat %s %s", form, coqAddr(longSrc), coqAddr(longDst), coqTriples(c.Pre),
 						rm, tm, km, c.Lo, n, coqTriples(c.Post), sparseAgainst(obs.Trace, dflt)))
